@@ -27,7 +27,7 @@ from .asttypes import (
 
 from .astutil import bistr, compare_asts
 
-from .common import NodeError, astfield
+from .common import NodeError, astfield, next_frag
 
 from .parsex import Mode, parse_ExceptHandler, parse_match_case
 from .code import Code, _code_as_lines
@@ -316,12 +316,15 @@ def _reparse_raw_stmtlike(self: fst.FST, new_lines: list[str], ln: int, col: int
 
         elif (parent := stmtlike.parent) and not stmtlike.next():  # changing trailing whitespace or semicolon of last child changes where the parents end
             _, _, end_ln, end_col = stmtlike.loc
-            l = root._lines[end_ln]
+            lines = root._lines
 
-            if (rest := l[end_col:]).lstrip().startswith(';'):  # block parents end after trailing semicolon of last child
-                end_col += rest.index(';') + 1
+            if ((frag := next_frag(lines, end_ln, end_col, len(lines) - 1, len(lines[-1]), False, None))  # None to skip line continuations but stay on the logical line
+                and frag.src.startswith(';')
+            ):  # block parents end after trailing semicolon of last child
+                end_ln, end_col, _ = frag
+                end_col += 1
 
-            parent._set_end_pos(end_ln + 1, l.c2b(end_col))
+            parent._set_end_pos(end_ln + 1, lines[end_ln].c2b(end_col))
 
         return True
 
